@@ -469,7 +469,14 @@ func (e *Exec) applyContract(callee *FuncInfo, call *ast.CallExpr, st *State, ct
 	if mc := e.fi.Contract; mc != nil {
 		if sp, ok := mc.Loops["@"+strings.TrimSuffix(strings.TrimPrefix(site, "call["), "]")]; ok {
 			for i, a := range sp.Invariants {
-				goal := e.clause(a.X, st, nil, call.Pos(), info, clauseInv)
+				// the callee's parameters are visible as <name>@arg (the argument values at this call)
+				argNames := map[string]string{}
+				for pn, pv := range names {
+					if !strings.Contains(pn, "@") {
+						argNames[pn+"@arg"] = pv
+					}
+				}
+				goal := e.clause(a.X, st, argNames, call.Pos(), info, clauseInv)
 				e.emit(st, "assert", fmt.Sprintf("%s.assert[%d]", site, i+1), goal, a.Tags, call.Pos(), a.Src)
 				st.assume(goal)
 			}
